@@ -84,6 +84,7 @@ def check(rep, model, tier):
         else:
             rep.violation('PARTITION-PREFIX', f'split_samples_df:{centre}', ssite, expected='(table without sample_ columns, concat(sample_ columns, axis=1))', found=T.brief(r, 300) if r else None)
     label_order(rep, model)
+    common.grid_round(rep, model, ['limit_df'])
     summ, det, rounds, ro = common.effects(model)
     for name in ('limit_df', 'limit_signal', 'drop_samples_df'):
         fn = model.find(name)
